@@ -488,6 +488,40 @@ def d10_subject_judged_after_its_evidence(chk: Check) -> None:
         raise AnalysisError("yields of the given node: {}".format(n))
 
 
+def d11_operands_typed_once(chk: Check) -> None:
+    """`typed_value` literal-evaluates text, and it is not idempotent: the
+    text `'1.0'` (quote marks included) evaluates to the text `1.0`, which
+    evaluates to the float 1.0.  Each operand of search_matches is
+    therefore typed exactly once, from the parameter itself.  Routing the
+    haystack through another conversion first (`tagless_value` already
+    calls typed_value) types it twice and moves quoted look-alike text from
+    the textual rungs of the table to the numeric / boolean ones."""
+    prog = chk.prog
+    chk.rule("C12-D11", "each typed_value() call of search_matches is "
+             "applied to a parameter that has not been re-bound", floor=2)
+    fi = prog.func("Searches.search_matches")
+    params = fi.params()
+    calls = [c for c in walk_local(fi.node) if isinstance(c, ast.Call) and
+             src(c.func).endswith("typed_value")]
+    if len(calls) < 2:
+        raise AnalysisError("typed_value calls of search_matches: {}".format(
+            len(calls)))
+    for c in calls:
+        arg = c.args[0] if c.args else None
+        text = "search_matches: {}".format(src(c))
+        rebound = isinstance(arg, ast.Name) and any(
+            isinstance(x, ast.Name) and x.id == arg.id and
+            isinstance(x.ctx, ast.Store) for x in walk_local(fi.node))
+        if isinstance(arg, ast.Name) and arg.id in params and not rebound:
+            chk.ok("C12-D11", fi, c, text, "the parameter as passed in")
+        else:
+            chk.fail("C12-D11", fi, c, text,
+                     "the operand has been converted before it is typed: a "
+                     "second literal evaluation turns quoted look-alike "
+                     "text ('1.0', 'true') into numbers and booleans, so "
+                     "`[version=1.00]` matches the text \"'1.0'\"")
+
+
 def run(chk: Check) -> None:
     d1_table(chk)
     d3_typed_value(chk)
@@ -500,4 +534,5 @@ def run(chk: Check) -> None:
     d4c_verdict_per_element(chk, "C12-D8")
     d9_anchored_booleans_are_booleans(chk)
     d10_subject_judged_after_its_evidence(chk)
+    d11_operands_typed_once(chk)
 
